@@ -4,6 +4,10 @@ import asmgen, asmcommon
 from lc3 import *
 from props import C03
 
+# parts of an assembly result the property does not speak about: a difference in these alone breaks the
+# correspondence but is not an input on which the property fails (reported with no-failing-input-found)
+AUX = ('bps', 'spans')
+
 ASSUMPTIONS = ["the feature flag is set per harness thread through features::verif_force (the CLI's -f parsing is clap's)"]
 
 MNEMS = ["push", "pop", "call", "rets"]
@@ -70,7 +74,7 @@ def correspondence(ctx, violations, known_hits):
     ca, ta = gen_asm(ctx.tier, ctx.seed)
     cv, tv = gen_vm(ctx.tier, ctx.seed)
     profiles = ("debug",) if ctx.tier == "quick" else ("debug", "release")
-    r = asmcommon.run_asm_cases(ctx, ca, ta, violations, profiles,
+    r = asmcommon.run_asm_cases(ctx, ca, ta, violations, profiles, aux=AUX,
                                 prop_note="model: flag-off result is the flag-on result or the stack-extension diagnostic (C18_asm_flag)")
     # VM half: C03-style runs under both flag values
     ev, mism, sigs, hist = 0, 0, set(), {}
